@@ -93,6 +93,7 @@ func c17(c *core.Check) {
 	c17GradientBox(c)
 	c17ClipRestore(c)
 	c17TransformSeparators(c)
+	c17DeadArithmetic(c)
 	c.Assume = []string{"float32/float64 conversions are treated as identity", "the group laws follow from the laws of 2x3 affine matrices once each routine equals its specification matrix (mathematics, not re-proved)"}
 
 	r1 := c.Rule("R1", "matrix package: Translation, Scaling, Rotation, Skew, Identity, New, Determinant, mult/Mul/Mul3, LeftMultBy, RightMultBy, Apply, Invert and the in-place Translate/Scale/Rotate/Skew have the specification normal forms", 16)
@@ -1154,4 +1155,11 @@ func c17TransformSeparators(c *core.Check) {
 		pos = p.Pos(at)
 	}
 	r.Cond(found, "svg.parseTransform | leading comma stripped from each item", pos, "strings.TrimLeft/Trim with a set containing the comma", "no item is stripped of a leading comma: the name of the second transform of `translate(10,20), scale(2)` is read as \", scale\" and the whole attribute — and image — is rejected")
+}
+
+// c17DeadArithmetic (R11): in the packages that build transforms (svg, matrix, html/document) no arithmetic result is
+// dropped: the rotation angle of an SVG marker used to be computed and never given to the transform.
+func c17DeadArithmetic(c *core.Check) {
+	r := c.Rule("R11", "no arithmetic result of svg, matrix and html/document is unused (go/ssa keeps dead values: a sum, difference, product or quotient without referrer is spelled in the source and dropped) — the angle of a marker must reach its transform", 100)
+	deadArithmeticRule(c, r, nil, "svg", "matrix", "html/document")
 }
